@@ -6,15 +6,19 @@
 (***************************************************************************)
 EXTENDS ReasmCore
 
-CONSTANTS MaxEvents, Rich
+CONSTANTS MinEvents, MaxEvents, Rich,
+          FaultKinds   \* the fault kinds enumerated (a second, larger run looks at output failures only)
 
-ShapeSet == IF Rich THEN Shapes ELSE {<<"U">>, <<"S", "P">>, <<"S", "E", "P">>}
+\* Rich: "rich" all shapes, "plain" without CWD/PATH, "min" single-record events and SYSCALL+EXECVE+PROCTITLE only
+ShapeSet == IF Rich = "rich" THEN Shapes
+            ELSE IF Rich = "plain" THEN {<<"U">>, <<"S", "P">>, <<"S", "E", "P">>}
+            ELSE {<<"U">>, <<"S", "E", "P">>}
 
 VARIABLES shapes, order, idx
 gvars == <<shapes, order, idx>>
 
 GInit ==
-    /\ \E n \in 1..MaxEvents : shapes \in [1..n -> ShapeSet]
+    /\ \E n \in MinEvents..MaxEvents : shapes \in [1..n -> ShapeSet]
     /\ order = <<>>
     /\ idx = [e \in DOMAIN shapes |-> 1]
 
@@ -29,13 +33,15 @@ GSpec == GInit /\ [][GNext]_gvars
 
 Complete == \A e \in DOMAIN shapes : idx[e] > Len(shapes[e])
 
-Faults ==
+AllFaults ==
     {[kind |-> "none"]}
     \cup {[kind |-> "malformed", at |-> i] : i \in 1..(Len(order) + 1)}
     \cup {[kind |-> "writefail", at |-> n] : n \in 1..Cardinality(DOMAIN shapes)}
     \cup {[kind |-> "writefailp", at |-> n] : n \in 1..Cardinality(DOMAIN shapes)}
     \cup {[kind |-> "badlogin", at |-> i] : i \in 1..(Len(order) + 1)}
     \cup {[kind |-> "badpid", at |-> i] : i \in 1..(Len(order) + 1)}
+
+Faults == {f \in AllFaults : f.kind \in FaultKinds}
 
 Sc(f) == [shapes |-> shapes, order |-> order, fault |-> f]
 
